@@ -31,8 +31,10 @@ func (v *verifFS) OpenFile(string, experimentalsys.Oflag, fs.FileMode) (experime
 }
 
 // VerifC16_Descriptors: a reference model of the descriptor table (map fd -> file, lowest-free allocation) run against
-// FSContext.OpenFile / CloseFile / Renumber for every history of 0..2 opens followed by two arbitrary operations with arbitrary descriptors (-1..5).
-//verif:opts maxpaths=60000 wall=900
+// FSContext.OpenFile / CloseFile / Renumber: a bulk of 0, 59 or 60 opens (so that the table is just below / exactly at a
+// 64-entry word of its bitmap), then 0..2 more opens, then two arbitrary operations with descriptors around the top of
+// the table (and -1, stdio, the pre-open).
+//verif:opts split=bulk:3 maxpaths=60000 wall=900
 func VerifC16_Descriptors() {
 	vfs := &verifFS{}
 	ctx, err := NewContext(0, nil, nil, nil, nil, nil, nil, nil, 0, nil, 0, nil, nil, []experimentalsys.FS{vfs}, []string{"/"}, nil)
@@ -40,14 +42,37 @@ func VerifC16_Descriptors() {
 		panic(err)
 	}
 	c := ctx.FS()
-	// ghost: fds 0..2 stdio, 3 preopen; model[fd] = file id (>= 0) for files opened through OpenFile
-	const maxFD = 6
-	var model [maxFD]int
-	for i := range model {
-		model[i] = -1
+	// ghost: fds 0..2 stdio, 3 preopen; model[fd] = file id for files opened through OpenFile
+	model := map[int32]int{}
+	used := func(fd int32) bool {
+		if fd >= 0 && fd < 4 {
+			return true
+		}
+		_, ok := model[fd]
+		return ok
 	}
-	used := func(fd int32) bool { return fd >= 0 && (fd < 4 || (fd < maxFD && model[fd] >= 0)) }
-	// history: 0..2 opens (so that descriptors 4 and 5 may be in use), then two arbitrary operations
+	lowestFree := func() int32 {
+		for i := int32(4); ; i++ {
+			if !used(i) {
+				return i
+			}
+		}
+	}
+	bulk := []int{0, 59, 60}[verifrt.Choose("bulk", 3)]
+	for i := 0; i < bulk; i++ {
+		fd, errno := c.OpenFile(vfs, "f", 0, 0)
+		if errno != 0 || fd != int32(4+i) {
+			verifrt.Assert(false, "open allocates the lowest free descriptor")
+			return
+		}
+		model[fd] = len(vfs.files) - 1
+	}
+	base := int32(4 + bulk)
+	// the descriptors the arbitrary operations may name
+	cand := []int32{-1, 0, 3, base - 2, base - 1, base, base + 1, base + 2}
+	if bulk == 0 {
+		cand = []int32{-1, 0, 3, 4, 5, 6, 7, 1}
+	}
 	pre := verifrt.Choose("opened", 3)
 	for step := 0; step < pre+2; step++ {
 		op := 0
@@ -56,33 +81,25 @@ func VerifC16_Descriptors() {
 		}
 		switch op {
 		case 0: // open: lowest free descriptor
+			want := lowestFree()
 			fd, errno := c.OpenFile(vfs, "f", 0, 0)
-			want := int32(-1)
-			for i := int32(4); i < maxFD; i++ {
-				if model[i] < 0 {
-					want = i
-					break
-				}
-			}
-			if want < 0 {
-				verifrt.Assume(false) // keep the ghost small
-			}
 			verifrt.Assert(errno == 0 && fd == want, "open allocates the lowest free descriptor")
 			model[want] = len(vfs.files) - 1
 		case 1: // close
-			fd := int32(verifrt.Choose("fd", maxFD+1)) - 1 // -1..7
+			fd := cand[verifrt.Choose("fd", len(cand))]
+			wasUsed := used(fd)
 			errno := c.CloseFile(fd)
-			verifrt.Assert((errno == 0) == used(fd), "close succeeds exactly on descriptors in use")
-			if fd >= 4 && used(fd) {
+			verifrt.Assert((errno == 0) == wasUsed, "close succeeds exactly on descriptors in use")
+			if fd >= 4 && wasUsed {
 				f := vfs.files[model[fd]]
 				verifrt.Assert(f.closed == 1, "close closes the file exactly once")
-				model[fd] = -1
-			} else if used(fd) {
+				delete(model, fd)
+			} else if wasUsed {
 				verifrt.Assume(false) // closing stdio / the preopen: not tracked by this ghost
 			}
 		case 2: // renumber
-			from := int32(verifrt.Choose("from", maxFD+1)) - 1
-			to := int32(verifrt.Choose("to", maxFD+1)) - 1
+			from := cand[verifrt.Choose("from", len(cand))]
+			to := cand[verifrt.Choose("to", len(cand))]
 			errno := c.Renumber(from, to)
 			switch {
 			case !used(from) || to < 0:
@@ -97,23 +114,21 @@ func VerifC16_Descriptors() {
 				verifrt.Assert(vfs.files[model[from]].closed == 0, "renumbering a descriptor onto itself is a no-op: the file stays open")
 			default:
 				verifrt.Assert(errno == 0, "renumber succeeds")
-				if model[to] >= 0 {
-					verifrt.Assert(vfs.files[model[to]].closed == 1, "the file previously at the target is closed")
+				if old, ok := model[to]; ok {
+					verifrt.Assert(vfs.files[old].closed == 1, "the file previously at the target is closed")
 				}
 				verifrt.Assert(vfs.files[model[from]].closed == 0, "the moved file is not closed")
 				model[to] = model[from]
-				model[from] = -1
+				delete(model, from)
 			}
 		}
-		// agreement after every step
-		for fd := int32(4); fd < maxFD; fd++ {
-			e, ok := c.LookupFile(fd)
-			verifrt.Assert(ok == (model[fd] >= 0), "lookup finds exactly the descriptors in use")
-			if ok && model[fd] >= 0 {
-				got, isV := e.File.(interface{ Raw() experimentalsys.File })
-				_ = got
-				_ = isV
+		// agreement after every step, over the window of descriptors the operations can touch
+		for _, fd := range cand {
+			if fd < 4 {
+				continue
 			}
+			_, ok := c.LookupFile(fd)
+			verifrt.Assert(ok == used(fd), "lookup finds exactly the descriptors in use")
 		}
 	}
 	verifrt.Cover("history")
